@@ -61,6 +61,28 @@ func (e *Engine) VerifyFunction(key string, opts VerifyOpts) (*FuncResult, error
 		args = append(args, v)
 		vc.assumeParamShape(st, v, prm.Type())
 	}
+	// a closure verified on its own: each captured variable is an arbitrary location holding an arbitrary value
+	var freeVars []Val
+	for _, fv := range fn.FreeVars {
+		loc := p.Fresh("cap$"+fv.Name(), SInt)
+		vc.assumeGlobal(p.Lt(p.Int(0), loc))
+		vc.assume(st, p.Le(loc, vc.allocCounter(st)))
+		pt := fv.Type().Underlying().(*types.Pointer).Elem()
+		if _, isStruct := structOf(pt); isStruct {
+			freeVars = append(freeVars, scalar(loc))
+		} else {
+			freeVars = append(freeVars, Val{K: VAddr, A: &Addr{K: AMem, Ref: loc, ET: pt}})
+		}
+	}
+	vc.closureVars = map[string]EV{}
+	for i, fv := range fn.FreeVars {
+		pt := fv.Type().Underlying().(*types.Pointer).Elem()
+		if freeVars[i].K == VAddr {
+			vc.closureVars[fv.Name()] = EV{V: vc.loadMem(st, freeVars[i].A.Ref, pt), T: pt}
+		} else {
+			vc.closureVars[fv.Name()] = EV{V: freeVars[i], T: pt}
+		}
+	}
 	vc.entry = st.clone()
 	vc.assumeAxioms(st)
 	if ct != nil {
@@ -85,7 +107,7 @@ func (e *Engine) VerifyFunction(key string, opts VerifyOpts) (*FuncResult, error
 		}
 	}
 	// smoke: hypotheses so far must be satisfiable (checked by the caller of VerifyFunction)
-	exit, results, fr := vc.execFunction(fn, args, nil, st, 0, "")
+	exit, results, fr := vc.execFunction(fn, args, freeVars, st, 0, "")
 	if exit != nil && ct != nil {
 		var res Val
 		rt := fn.Signature.Results()
@@ -207,6 +229,7 @@ func (vc *VC) frameObligations(exit *State, ct *Contract, fn *ssa.Function, args
 			var exempt []*Term
 			exempt = append(exempt, p.Gt(r, a0))          // fresh objects
 			exempt = append(exempt, p.Eq(r, p.Int(0))) // the nil reference holds no location
+			exempt = append(exempt, p.And(p.Lt(r, p.Int(0)), p.Gt(p.App("rootof", SInt, r), a0))) // parts of fresh objects
 			for _, l := range ls {
 				exempt = append(exempt, p.Eq(r, l.idx[0]))
 			}
